@@ -185,14 +185,14 @@ Definition purge_up_to (l : list entry) (threshold : N) : list entry :=
 Record sub := mkSub {
   s_id : N; s_fab : N; s_peer : N;
   s_min : N; s_max : N;               (* seconds, u16 *)
-  s_rep_at : N; s_retry_at : N;       (* Instants *)
+  s_rep_at : N; s_acc : N; s_retry_at : N;   (* Instants: reported_at, accepted_at, retry_at *)
   s_fail : N;                         (* u8 *)
   s_seen : N; s_seen_ev : N;          (* watermarks *)
   s_paths : list path;                (* the subscribe request kept in the RX buffer *)
   (* ghost *)
   s_del : list (path * N);            (* per path: change id current when the value last delivered was read *)
   s_dev : N;                          (* every event up to this number was delivered (or is gone) *)
-  s_since : N                         (* [now] of the last successful report, or of the resumption after a restart *)
+  s_since : N                         (* [now] of the last delivered report, else of the acceptance / resumption *)
 }.
 
 Definition checked_add (a d : N) : option N := if a + d <=? IMAX then Some (a + d) else None.
@@ -200,8 +200,9 @@ Definition checked_add (a d : N) : option N := if a + d <=? IMAX then Some (a + 
 Definition unprimed (s : sub) : bool := s_rep_at s =? IMAX.
 
 (** [Subscription::is_expired] *)
+Definition expiry_anchor (s : sub) : N := if unprimed s then s_acc s else s_rep_at s.
 Definition is_expired (s : sub) (now : N) : bool :=
-  match checked_add (s_rep_at s) (s_max s * 1000) with
+  match checked_add (expiry_anchor s) (s_max s * 1000) with
   | Some e => e <=? now
   | None => false
   end.
@@ -296,8 +297,12 @@ Definition stale (lg : list entry) (del : list (path * N)) (p : path) : bool :=
 
 Definition find_ctx (sid : N) (l : list ctx) : option ctx :=
   find (fun x => s_id (x_sub x) =? sid) l.
-Definition remove_ctx (sid : N) (l : list ctx) : list ctx :=
-  filter (fun x => negb (s_id (x_sub x) =? sid)) l.
+(** the context is dropped: the first one of that id (ids are unique) *)
+Fixpoint remove_ctx (sid : N) (l : list ctx) : list ctx :=
+  match l with
+  | [] => []
+  | x :: t => if s_id (x_sub x) =? sid then t else x :: remove_ctx sid t
+  end.
 Fixpoint replace_ctx (x' : ctx) (l : list ctx) : list ctx :=
   match l with
   | [] => []
@@ -318,7 +323,7 @@ Definition visit_rest (tb : list entry) (n : N) (x : ctx) : ctx :=
   fold_left (fun x p => visit n x p (should_report tb x p)) (s_paths (x_sub x)) x.
 
 Definition with_core (s : sub) (rep_at retry_at fail seen seen_ev : N) (del : list (path * N)) (dev since : N) : sub :=
-  mkSub (s_id s) (s_fab s) (s_peer s) (s_min s) (s_max s) rep_at retry_at fail seen seen_ev (s_paths s) del dev since.
+  mkSub (s_id s) (s_fab s) (s_peer s) (s_min s) (s_max s) rep_at (s_acc s) retry_at fail seen seen_ev (s_paths s) del dev since.
 
 (** [set_keep] + drop: the snapshotted watermarks are committed *)
 Definition sub_after_ok (x : ctx) : sub :=
@@ -344,8 +349,8 @@ Definition report_complete (st : state) (sid : N) (s' : sub) (keep : bool) : sta
     mkSt (next_sid st) (count st - 1) (subs st) (tab st) (next_chg st) None false cs (kv st) (log st) (nchg st) (evn st).
 
 (** [SubscriptionsInner::add] *)
-Definition fresh_sub (st : state) (fab peer min max : N) (paths : list path) : sub :=
-  mkSub (next_sid st) fab peer min max IMAX 0 0 (watermark (next_chg st)) 0 paths [] 0 0.
+Definition fresh_sub (st : state) (now fab peer min max : N) (paths : list path) : sub :=
+  mkSub (next_sid st) fab peer min max IMAX now 0 0 (watermark (next_chg st)) 0 paths [] 0 now.
 
 Definition min_seen (l : list sub) : option N :=
   match l with
@@ -378,7 +383,7 @@ Fixpoint resume (recs : list sub) (st : state) (now evw : N) : state :=
   | r :: t =>
       if MAX_SUBS <=? count st then resume t st now evw
       else
-        let s := fresh_sub st (s_fab r) (s_peer r) (s_min r) (s_max r) (s_paths r) in
+        let s := fresh_sub st now (s_fab r) (s_peer r) (s_min r) (s_max r) (s_paths r) in
         let s' := with_core s IMAX 0 0 (s_seen s) evw [] evw now in
         resume t (mkSt (next_sid st + 1) (count st + 1) (subs st ++ [s']) (tab st) (next_chg st)
                        None false (ctxs st) (kv st) (log st) (nchg st) (evn st)) now evw
@@ -403,7 +408,7 @@ Definition step_gen (fixed : bool) (ob : option bool) (st : state) (o : op) : st
   | OSubBegin fab peer min max paths now lag =>
       if MAX_SUBS <=? count st then (st, USid None)
       else
-        let s := fresh_sub st fab peer min max paths in
+        let s := fresh_sub st now fab peer min max paths in
         let x := mkCtx s true (s_seen s) (evn st - lag) now [] [] in
         (mkSt (next_sid st + 1) (count st + 1) (subs st) (tab st) (next_chg st) (reporting st)
               (cancelled st) (ctxs st ++ [x]) (kv st) (log st) (nchg st) (evn st), USid (Some (s_id s)))
